@@ -260,5 +260,47 @@ let handle_core case obs =
         @ ["IMPL"] @ List.nth impl_steps i
       else obs), failed)
 
-let handle case obs = match case with "PS" :: _ -> handle_pair case obs | _ -> handle_core case obs
+(* ---- a two-agent run as a schedule of the system model (Model/TwoAgents.v) ---- *)
+let handle_sys case obs =
+  match split_on ";" (List.tl case) with
+  | cfga_t :: cfgb_t :: topo_t :: opts ->
+    let (cfga, lua, lpa) = p_cfg { toks = cfga_t } in
+    let (cfgb, lub, lpb) = p_cfg { toks = cfgb_t } in
+    let st = { toks = topo_t } in
+    let na = int_of_string (next st) in let nb = int_of_string (next st) in
+    let p_ep st = let h = p_z st in let a = p_addr st in { ep_h = h; ep_pub = a } in
+    let ea = p_list na p_ep st in let eb = p_list nb p_ep st in
+    let links = p_list na (fun st -> p_list nb (fun st -> let r = p_bool st in let b = p_bool st in (r, b)) st) st in
+    let topo = { t_a = ea; t_b = eb; t_links = links } in
+    let strip t = (* "... # n" *)
+      let rec go acc = function
+        | ["#"; n] -> (List.rev acc, int_of_string n)
+        | x :: r -> go (x :: acc) r
+        | [] -> (List.rev acc, -1) in
+      go [] t in
+    let p_sysop t = match t with
+      | "A" :: r -> SApi (true, p_op { toks = r })
+      | "B" :: r -> SApi (false, p_op { toks = r })
+      | ["DV"; i] -> SDeliver (nat_of_int (int_of_string i))
+      | ["DR"; i] -> SDrop (nat_of_int (int_of_string i))
+      | ["DU"; i] -> SDup (nat_of_int (int_of_string i))
+      | _ -> failwith "bad system op" in
+    let rec len = function [] -> 0 | _ :: t -> 1 + len t in
+    let first_bad = ref (-1) in
+    let k = ref 0 in
+    let sy = List.fold_left (fun sy t ->
+        let (ot, n) = strip t in
+        let sy' = sys_step cfga cfgb topo sy (p_sysop ot) in
+        if n >= 0 && len sy'.sy_net <> n && !first_bad < 0 then first_bad := !k;
+        incr k; sy') (sys_init lua lpa lub lpb) opts in
+    if !first_bad >= 0 then
+      (["NETLEN_DIFFERS_AT_OP"; string_of_int !first_bad] @ List.nth opts !first_bad, [])
+    else
+    (s_snap (snap_of_state sy.sy_a) @ ["|"] @ s_snap (snap_of_state sy.sy_b) @ ["|"; string_of_int (len sy.sy_net)], [])
+  | _ -> failwith "bad system case"
+
+let handle case obs = match case with
+  | "PS" :: _ -> handle_pair case obs
+  | "SY" :: _ -> handle_sys case obs
+  | _ -> handle_core case obs
 let () = Driverlib.run handle
